@@ -208,6 +208,7 @@ def login_case(ctx, case):
 
             def take(p):
                 data = b'' if form.endswith('_empty') else \
+                    bytes(p.data) if form == 'echo' else \
                     b'ok:' + p.channel.encode('utf-8')
                 kw = {'successful': True} if form.startswith('explicit') \
                     else {}
@@ -319,7 +320,10 @@ def login_case(ctx, case):
     # L4
     want_pl = []
     for s in plugins:
-        if case.get('takeover'):
+        if case.get('takeover') == 'echo':
+            # the handler sends back exactly the request's payload
+            want_pl.append((s[1], True, bytes(s[3])))
+        elif case.get('takeover'):
             want_pl.append((s[1], True, b'' if str(case['takeover']).endswith(
                 '_empty') else b'ok:' + s[2].encode('utf-8')))
         else:
@@ -535,7 +539,8 @@ def case_strategy(versions):
             'join_fails': st.sampled_from([None, None, None, [503], [500],
                                            [403], [None], [502, 503]]),
             'takeover': st.sampled_from([False, False, True, 'explicit_empty',
-                                         'short', 'short_empty']),
+                                         'short', 'short_empty', 'echo',
+                                         'echo']),
             'plan': st.one_of(st.just('whole'), st.just('one'),
                               st.lists(st.integers(1, 40), min_size=1,
                                        max_size=5)),
@@ -563,13 +568,19 @@ def t_fixed(ctx, versions):
              ('plugin', 2 ** 31 - 1, 'a:b', b'x' * 300, False),
              ('compress', 64), ('plugin', 5, 'é', b'q', True)],
             [('compress', -1), ('plugin', 1, 'a:b', b'zz', False)],
+            # compressed plugin requests whose compressed form is LONGER
+            # than the packet (tiny or incompressible payloads), echoed
+            [('compress', 0), ('plugin', 3, 'a:b', b'hello', True),
+             ('plugin', 4, 'a:b', bytes(range(256)) + bytes(range(44)),
+              True), ('plugin', 6, 'a:b', b'', True)],
         ]
         for sc in scripts:
             for term in (('success',),
                          ('disconnect', ('json_text', 'nope')),
                          ('disconnect', ('outdated_server', '1.8.9'))):
                 for token, take in ((False, False), (True, True),
-                                    (False, 'short_empty')):
+                                    (False, 'short_empty'),
+                                    (False, 'echo')):
                     login_case(ctx, {
                         'version': v, 'steps': sc, 'terminal': term,
                         'token': token, 'takeover': take, 'plan': 'whole',
@@ -584,7 +595,7 @@ def t_fixed(ctx, versions):
                                'handler_disc'][k % 3])})
     ctx.sample({'version': versions[0] if versions else None,
                 'steps': 'fixed script table'}, 'fixed')
-    ctx.exhaustive_done('6 fixed scripts x 3 terminals x 2 client configs '
+    ctx.exhaustive_done('7 fixed scripts x 3 terminals x 4 client configs '
                         'at each era version')
 
 
